@@ -14,10 +14,7 @@ fn reference(probe: u64) -> u64 {
     rs.hash_one(probe)
 }
 
-crate::harness! {
-    #[kani::unwind(4)]
-    fn c20_map_constructors_fixed_hasher() {
-        let probe: u64 = kani::any();
+fn map_constructors(probe: u64) {
         let want = reference(probe);
         let a: HashMap<u64, u8> = HashMap::new();
         assert!(a.hasher().hash_one(probe) == want, "C20: HashMap::new does not use the fixed hasher");
@@ -36,13 +33,27 @@ crate::harness! {
         assert!(g.hasher().hash_one(probe) == want, "C20: HashMap::clone does not keep the fixed hasher");
         kani::cover!(probe == 0, "probe 0");
         std::mem::forget((a, b, c, d, e, f, g));
-    }
 }
 
 crate::harness! {
     #[kani::unwind(4)]
-    fn c20_set_constructors_fixed_hasher() {
-        let probe: u64 = kani::any();
+    fn c20_map_constructors_fixed_hasher() {
+        map_constructors(kani::any());
+    }
+}
+
+// Concrete probes: a different hasher is exposed by constant folding alone, so a regression is reported in
+// seconds (finding a distinguishing probe symbolically means inverting SipHash, which can take the solver
+// longer than the time cap; the symbolic-probe harnesses above are what covers *all* probes on a good tree).
+crate::harness! {
+    #[kani::unwind(4)]
+    fn c20_map_constructors_concrete_probes() {
+        map_constructors(0);
+        map_constructors(0x9e37_79b9_7f4a_7c15);
+    }
+}
+
+fn set_constructors(probe: u64) {
         let want = reference(probe);
         let a: HashSet<u64> = HashSet::new();
         assert!(a.hasher().hash_one(probe) == want, "C20: HashSet::new does not use the fixed hasher");
@@ -66,5 +77,53 @@ crate::harness! {
         assert!(m.hasher().hash_one(probe) == want, "C20: set difference does not use the fixed hasher");
         kani::cover!(probe == u64::MAX, "probe max");
         std::mem::forget((a, b, c, e, f, u, n, x, m));
+}
+
+crate::harness! {
+    #[kani::unwind(4)]
+    fn c20_set_constructors_fixed_hasher() {
+        set_constructors(kani::any());
+    }
+}
+
+crate::harness! {
+    #[kani::unwind(4)]
+    fn c20_set_constructors_concrete_probes() {
+        set_constructors(u64::MAX);
+        set_constructors(0x0123_4567_89ab_cdef);
+    }
+}
+
+
+/// Minimal self-describing deserializer front: hands a newtype struct its inner deserializer, as
+/// serde_json / bincode do (the value deserializers of `serde::de::value` do not implement that hint).
+struct Newtype<D>(D);
+impl<'de, D: serde::Deserializer<'de>> serde::Deserializer<'de> for Newtype<D> {
+    type Error = D::Error;
+    fn deserialize_any<V: serde::de::Visitor<'de>>(self, v: V) -> Result<V::Value, Self::Error> {
+        self.0.deserialize_any(v)
+    }
+    fn deserialize_newtype_struct<V: serde::de::Visitor<'de>>(self, _name: &'static str, v: V) -> Result<V::Value, Self::Error> {
+        v.visit_newtype_struct(self.0)
+    }
+    serde::forward_to_deserialize_any! {
+        bool i8 i16 i32 i64 i128 u8 u16 u32 u64 u128 f32 f64 char str string bytes byte_buf option unit
+        unit_struct seq tuple tuple_struct map struct enum identifier ignored_any
+    }
+}
+
+crate::harness! {
+    #[kani::unwind(4)]
+    fn c20_deserialized_collections_fixed_hasher() {
+        use serde::de::value::{Error as DeError, MapDeserializer, SeqDeserializer};
+        use serde::Deserialize;
+        let probe: u64 = 0x0f0f_1234_5678_9abc;
+        let want = reference(probe);
+        let m: HashMap<u64, u8> =
+            HashMap::deserialize(Newtype(MapDeserializer::<_, DeError>::new(std::iter::empty::<(u64, u8)>()))).unwrap();
+        assert!(m.hasher().hash_one(probe) == want, "C20: a deserialized HashMap does not use the fixed hasher");
+        let s: HashSet<u64> = HashSet::deserialize(Newtype(SeqDeserializer::<_, DeError>::new(std::iter::empty::<u64>()))).unwrap();
+        assert!(s.hasher().hash_one(probe) == want, "C20: a deserialized HashSet does not use the fixed hasher");
+        std::mem::forget((m, s));
     }
 }
